@@ -1,0 +1,17 @@
+//! Add-only accessors for the external verification harness (`/verif`). Compiled only with the
+//! `verif_hooks` cargo feature; nothing here changes behaviour, it only re-exposes crate-private
+//! functions so that they can be run on generated inputs and compared with a formal model.
+
+use crate::ln::onion_utils::LocalHTLCFailureReason;
+
+/// [`crate::ln::onion_payment::check_incoming_htlc_cltv`]
+pub fn check_incoming_htlc_cltv(
+	cur_height: u32, outgoing_cltv_value: u32, cltv_expiry: u32, min_cltv_expiry_delta: u16,
+) -> Result<(), LocalHTLCFailureReason> {
+	crate::ln::onion_payment::check_incoming_htlc_cltv(
+		cur_height,
+		outgoing_cltv_value,
+		cltv_expiry,
+		min_cltv_expiry_delta,
+	)
+}
